@@ -5,6 +5,8 @@ use std::panic::{catch_unwind, AssertUnwindSafe};
 
 mod alloc;
 mod combo_cmd;
+mod derive_cmd;
+mod derive_specs;
 mod dynspec;
 mod reader_cmd;
 mod tools_cmd;
@@ -36,6 +38,7 @@ fn main() {
             "A" => reader_cmd::run_async(&toks[1..]),
             "X" => combo_cmd::run_x(&toks[1..]),
             "Y" => combo_cmd::run_y(&toks[1..]),
+            "D" => derive_cmd::run(&toks[1..]),
             other => format!("BADCMD {}", other),
         }))
         .unwrap_or_else(|_| "BADCASE harness-panic".to_string());
